@@ -1,5 +1,6 @@
-"""Run the real nfc.tag.activate + tag.ndef evaluation against an adversarial
-responder and canonicalise what happened (C08)."""
+"""Run the real nfc.tag.activate and a sequence of operations on the tag object
+(tag.ndef, ndef.has_changed, tag.is_present) against an adversarial responder
+and canonicalise what happened (C08).  Also: tag.dump() as an oracle-only run."""
 import logging
 
 import nfc
@@ -37,43 +38,61 @@ def show_ndef(nd):
 
 
 class Result(object):
-    __slots__ = ("canon", "cls", "first", "second", "exc", "loop", "n", "n_act", "n_first", "log", "tag", "ndef",
-                 "octets", "length", "capacity", "where")
+    __slots__ = ("canon", "cls", "exc", "loop", "n", "log", "tag", "ndef", "octets", "length", "capacity", "where",
+                 "words", "n_at", "present", "bad")
 
 
-def run_real(responder, budget, max_send=256, max_recv=256, stop_after=None, garble=None, again=True):
-    """-> Result.  canon: 'none' | 'tag <Class> first=<ndef> second=<ndef>' | 'exc <Name> at <phase>' | 'loop'"""
+def run_real(responder, budget, max_send=256, max_recv=256, stop_after=None, garble=None, ops="nhp"):
+    """-> Result.  canon: 'none' | 'tag <Class> <one word per operation>' | 'exc <Name>' | 'loop'.
+    ops: 'n' tag.ndef, 'h' tag.ndef.has_changed (if tag.ndef is an object), 'p' tag.is_present.
+    r.bad: results that are not what the operation may return (wrong type)"""
     clf = AdvClf(responder, budget, max_send, max_recv, stop_after, garble)
     r = Result()
-    r.cls = r.first = r.second = r.exc = r.tag = r.ndef = r.octets = r.length = r.capacity = None
+    r.cls = r.exc = r.tag = r.ndef = r.octets = r.length = r.capacity = None
     r.loop = False
-    r.n_act = r.n_first = None
     r.where = "activate"
+    r.words, r.n_at, r.present, r.bad = [], [], [], []
     try:
         tag = nfc.tag.activate(clf, responder.target())
-        r.n_act = len(clf.log)
+        r.n_at.append(len(clf.log))
         if tag is None:
             r.canon = "none"
         else:
+            if not isinstance(tag, nfc.tag.Tag):
+                r.bad.append("activate returned %r" % type(tag).__name__)
             r.tag = tag
             r.cls = type(tag).__name__
-            r.where = "ndef"
-            nd = tag.ndef
-            r.n_first = len(clf.log)
-            r.first = show_ndef(nd)
-            if nd is not None:
-                r.ndef, r.octets, r.length, r.capacity = nd, bytes(nd.octets), nd.length, nd.capacity
-            r.second = "-"
-            if again and nd is not None:
-                r.where = "has_changed"
-                nd.has_changed
-                nd2 = tag._ndef         # the same object, or None when the re-read failed (tag.ndef would read again)
-                r.second = show_ndef(nd2) if nd2 is nd or nd2 is None else "other-object"
-                if nd2 is not None:
-                    r.octets, r.length, r.capacity = bytes(nd2.octets), nd2.length, nd2.capacity
+            for op in ops:
+                if op == "n":
+                    r.where = "ndef"
+                    nd = tag.ndef
+                    r.words.append("n=" + show_ndef(nd))
+                elif op == "h":
+                    r.where = "has_changed"
+                    nd = tag._ndef
+                    if nd is None:
+                        r.words.append("h=-")
+                    else:
+                        ch = nd.has_changed
+                        if not isinstance(ch, bool):
+                            r.bad.append("has_changed returned %r" % (ch,))
+                        nd2 = tag._ndef         # the same object, or None when the re-read failed
+                        r.words.append("h=" + (show_ndef(nd2) if nd2 is nd or nd2 is None else "other-object"))
+                        nd = nd2
                 else:
-                    r.ndef = None
-            r.canon = "tag %s first=%s second=%s" % (r.cls, r.first, r.second)
+                    r.where = "is_present"
+                    p = tag.is_present
+                    if not isinstance(p, bool):
+                        r.bad.append("is_present returned %r" % (p,))
+                    r.present.append(bool(p))
+                    r.words.append("p=%d" % bool(p))
+                    r.n_at.append(len(clf.log))
+                    continue
+                r.n_at.append(len(clf.log))
+                r.ndef = nd
+                if nd is not None:
+                    r.octets, r.length, r.capacity = bytes(nd.octets), nd.length, nd.capacity
+            r.canon = " ".join(["tag " + r.cls] + r.words)
     except BudgetExceeded:
         r.loop = True
         r.canon = "loop"
@@ -83,6 +102,26 @@ def run_real(responder, budget, max_send=256, max_recv=256, stop_after=None, gar
     r.log = clf.log
     r.n = len(clf.log)
     return r
+
+
+def run_dump(responder, budget, max_send=256, max_recv=256, stop_after=None):
+    """activate, then tag.dump(): -> (outcome, n, log, detail); outcome 'none' | 'lines' | 'loop' | 'exc <Name>' |
+    'bad <what>' (dump() returned something that is not a list of strings)"""
+    clf = AdvClf(responder, budget, max_send, max_recv, stop_after, None)
+    where = "activate"
+    try:
+        tag = nfc.tag.activate(clf, responder.target())
+        if tag is None:
+            return "none", len(clf.log), clf.log, ""
+        where = "dump"
+        lines = tag.dump()
+        if not isinstance(lines, list) or not all(isinstance(x, str) for x in lines):
+            return "bad " + type(lines).__name__, len(clf.log), clf.log, type(tag).__name__
+        return "lines", len(clf.log), clf.log, type(tag).__name__
+    except BudgetExceeded:
+        return "loop", len(clf.log), clf.log, where
+    except Exception as e:   # noqa
+        return "exc " + exc_name(e), len(clf.log), clf.log, where
 
 
 def script_line(kind, log, params=()):
